@@ -98,6 +98,19 @@ UnpackFrom(blob, at) ==                          \* list of strings starting at 
   ELSE <<SubBytes(blob, at + 2, Rd16(blob, at))>> \o UnpackFrom(blob, at + 2 + Rd16(blob, at))
 Unpack(blob) == UnpackFrom(blob, 0)
 Count(blob)  == Len(Unpack(blob))
+\* result of unpacking `req` strings into descriptors: wd[i] = 1: own descriptor with a destination, 0: own descriptor without
+\* (length only), 2: the caller's ONE shared "skip" descriptor without destination (several entries of the pointer array name the
+\* same object: it ends up holding the length of the last skipped string).  Entries beyond the packed count are left untouched.
+UnpackResult(blob, req, wd) ==
+  LET u == Unpack(blob)
+      m == IF req < Len(u) THEN req ELSE Len(u)
+      sh == { j \in 1..m : wd[j] = 2 }
+      lastS == IF sh = {} THEN 0 ELSE CHOOSE j \in sh : \A k \in sh : k <= j
+  IN [i \in 1..req |->
+        IF wd[i] = 2 THEN (IF lastS = 0 THEN [len |-> 0, bytes |-> << >>, touched |-> 0]
+                           ELSE [len |-> Len(u[lastS]), bytes |-> << >>, touched |-> 1])
+        ELSE IF i <= Len(u) THEN [len |-> Len(u[i]), bytes |-> IF wd[i] = 1 THEN u[i] ELSE << >>, touched |-> 1]
+        ELSE [len |-> 0, bytes |-> << >>, touched |-> 0]]
 
 (***************************************************************************)
 (* Operation descriptors [op, arg, n] and their result [post, len, bytes, ret] *)
